@@ -111,6 +111,11 @@ func backendProp(b backendSpec, meaning string) propFunc {
 		}
 		r.Clauses = append(r.Clauses, "no silent literal (E73): a type switch over IR expression kinds that renders text does not answer the kinds it has no arm for with a fixed literal (\"0\", \"{}\") and no error")
 		c.runSilentLiteralArm(r, "dispatch.silentliteral", inPkgs(b.Name), nil)
+		if b.Name != "spirv" {
+			r.Clauses = append(r.Clauses, "emitted loop bounds (E86): the bound printed into a `for (...; i < %d; ...)` literal is not a Go compile-time constant")
+			c.runEmitLoopBound(r, "emit.loopbound", inPkgs(b.Name))
+			r.floor("emit.loopbound", 1)
+		}
 		r.Clauses = append(r.Clauses, shallowWalkerClause)
 		c.runShallowWalker(r, "walker.shallow", inPkgs(b.Name), shallowWalkerExceptions)
 		r.floor("walker.shallow", 2)
